@@ -4,7 +4,10 @@ go 1.25
 
 toolchain go1.25.0
 
-require oss.terrastruct.com/d2 v0.0.0
+require (
+	golang.org/x/image v0.20.0
+	oss.terrastruct.com/d2 v0.0.0
+)
 
 require (
 	github.com/PuerkitoBio/goquery v1.10.0 // indirect
@@ -20,8 +23,9 @@ require (
 	github.com/rivo/uniseg v0.4.7 // indirect
 	github.com/yuin/goldmark v1.7.4 // indirect
 	golang.org/x/exp v0.0.0-20240909161429-701f63a606c0 // indirect
-	golang.org/x/image v0.20.0 // indirect
 	golang.org/x/net v0.35.0 // indirect
+	golang.org/x/sys v0.30.0 // indirect
+	golang.org/x/term v0.29.0 // indirect
 	golang.org/x/text v0.22.0 // indirect
 	golang.org/x/xerrors v0.0.0-20240903120638-7835f813f4da // indirect
 	oss.terrastruct.com/util-go v0.0.0-20250213174338-243d8661088a // indirect
